@@ -141,31 +141,54 @@ def run(chk):
             v, d = PROVED, ""
             ev = getattr(it, "seq_events", [])
             nret = 0
+            # what every family of real cubes satisfies (otherwise a "witness" could be unrealisable): implication is
+            # reflexive and transitive, and a cube sorts after every cube it implies (its masks contain the other's;
+            # the symbolic elements sort by name), so a cube never implies a different one that sorts later
+            dn = sorted(set(names))
+            imp_b = lambda x, y: B.atom("implies(%s,%s)" % (x, y))
+            axioms = [W(1, bits=[imp_b(x, x)]) for x in dn]
+            axioms += [W(1, bits=[B.bnot(imp_b(x, y))]) for x in dn for y in dn if x < y]
+            axioms += [W(1, bits=[B.bor(B.bnot(B.band(imp_b(x, y), imp_b(y, z))), imp_b(x, z))]) for x in dn for y in dn for z in dn if len({x, y, z}) == 3]
+            sp_names = ["is_zero(%s)" % x for x in dn] + ["implies(%s,%s)" % (x, y) for x in dn for y in dn]
+            space = Space(sp_names, axioms)
+            covered = 0
             for o in outs:
-                s_, w_ = pc_status(o.pc)
-                if s_ == "unsat":
+                m_ = space.pc_mask(o.pc)
+                if m_ is None:
+                    v, d = UNDECIDED, "path condition outside the predicate universe"
+                    break
+                if not m_:
                     continue
-                if o.kind != "return" or s_ != "sat":
+                if o.kind != "return":
                     v, d = UNDECIDED, "path not decided"
                     break
                 nret += 1
                 kept = [elem_name(c) for c in C.cubes(it, o.state, it.read_ptr(o.state, Ptr(p, ())))]
-                z = {nm: w_.get("is_zero(%s)" % nm, 0) for nm in names}
-                alive = sorted({nm for nm in names if not z[nm]})
-                imp = lambda x, y: w_.get("implies(%s,%s)" % (x, y), 0)
-                want = [x for x in alive if not any(y != x and imp(x, y) for y in alive)]
-                if sorted(kept) != want:
-                    # which clause is violated?
-                    why = "keeps %s, expected %s when zero cubes are %s and implications are %s" % (kept, want, [n_ for n_ in names if z[n_]], [k for k, val in w_.items() if k.startswith("implies") and val])
-                    v, d = REFUTED, why
+                # every realisable valuation of the predicates on this path
+                while m_ and v == PROVED:
+                    low = m_ & -m_
+                    r_ = low.bit_length() - 1
+                    m_ ^= low
+                    covered += 1
+                    w_ = {nm: (r_ >> j) & 1 for j, nm in enumerate(sp_names)}
+                    z = {nm: w_["is_zero(%s)" % nm] for nm in names}
+                    alive = sorted({nm for nm in names if not z[nm]})
+                    imp = lambda x, y: w_["implies(%s,%s)" % (x, y)]
+                    want = [x for x in alive if not any(y != x and imp(x, y) for y in alive)]
+                    if sorted(kept) != want:
+                        why = "keeps %s, expected %s when zero cubes are %s and implications are %s" % (kept, want, [n_ for n_ in dn if z[n_]], [k for k, val in w_.items() if k.startswith("implies") and val and k.split("(")[1].split(",")[0] != k.split(",")[1][:-1]])
+                        v, d = REFUTED, why
+                if v != PROVED:
                     break
-            if v == PROVED and L >= 2 and not ("sort" in ev and "dedup" in ev):
-                v, d = REFUTED, "simplification does not sort and deduplicate (calls seen: %s)" % ev
+            if v == PROVED and covered != bin(space.base).count("1"):
+                v, d = UNDECIDED, "paths cover %d of %d predicate valuations" % (covered, bin(space.base).count("1"))
             if v == PROVED and nret == 0:
                 v, d = UNDECIDED, "no path"
         except Undecided as ex:
             v, d = UNDECIDED, ex.cause
         chk.add("C14.S", key, v, d, where=where_of(simp), sample=dict(obligation=key, paths=nret if v == PROVED else None, verdict=v) if L == 3 else None)
+    # ------------------------------------------------------------------ C14.R real cubes on a two-variable window
+    real_window(chk, facts, C)
     # ------------------------------------------------------------------ C14.L Lut -> Sop
     KD = env.kinds["dyn"]
     for bd, sty, tr in facts.trait_impl_methods("std::convert::From"):
@@ -210,6 +233,139 @@ def run(chk):
                 v, d = UNDECIDED, ex.cause
             chk.add("C14.L", key, v, d, where=where_of(bd))
     complement_rule(chk, facts, C, cm)
+
+
+def real_window(chk, facts, C):
+    """| and & (first by-reference or by-value form found per signature) on operands whose cubes are *real* symbolic
+    cubes over a window of two variables (one atom per literal bit, canonical cubes only): the abstract summary
+    (paths x result cubes as bit functions) is evaluated on every canonical operand choice and must
+      - denote the OR / AND of the operands on the 4 assignments,
+      - contain no contradictory cube, no duplicate, no cube implying another.
+    The elements' own Ord / PartialEq / implies / products run in the interpreter (sort and dedup are modelled
+    semantically: std::sort is a stable sort by the element order, dedup_by removes an element when the closure
+    holds for it and the last kept one)."""
+    import itertools as _it
+    adt = facts.adts[C.elem]
+    fts = [f["ty"] for f in adt["variants"][0]["fields"]]
+    if not (len(fts) == 2 and all(t_["k"] == "uint" for t_ in fts)):
+        chk.undecided("C14.R", "real-cube window", "cube representation is not two masks")
+        return
+    WN = 2
+
+    def mk_cube(nm):
+        fs = []
+        for k, t_ in enumerate(fts):
+            fs.append(W(t_["w"], bits=[B.atom("%s.f%d[%d]" % (nm, k, i_)) if i_ < WN else ZERO for i_ in range(t_["w"])]))
+        return Agg("adt", C.elem, 0, fs)
+
+    def canon_pc(names):
+        pc = []
+        for nm in names:
+            for i_ in range(WN):
+                pc.append(W(1, bits=[B.bnot(B.band(B.atom("%s.f0[%d]" % (nm, i_)), B.atom("%s.f1[%d]" % (nm, i_))))]))
+        return tuple(pc)
+
+    def cube_val(c, m):
+        pos, neg = c
+        return (pos & ~m) == 0 and (neg & m) == 0 and (pos & neg) == 0
+
+    for trait, opname, shapes in (("std::ops::BitOr", "or", ((1, 1), (2, 1), (1, 2), (2, 2), (0, 3))), ("std::ops::BitAnd", "and", ((1, 1), (2, 1), (1, 2), (2, 2)))):
+        forms = [(bd, "<%s as %s>::%s" % (sty["s"], tr["s"], bd["name"])) for bd, sty, tr in facts.trait_impl_methods(trait) if (sty["t"] if sty["k"] == "ref" else sty).get("path") == SOP]
+        # the forms forward to one another; the one taking two references is analysed (all of them in the thorough tier)
+        refs = [f for f in forms if all(t_["k"] == "ref" for t_ in f[0]["sig"]["inputs"])]
+        todo = forms if chk.tier == "thorough" else (refs[:1] or forms[:1])
+        for bd, label in todo:
+            for La, Lb in shapes:
+                key = "%s on real cubes (%d,%d) window of %d variables" % (label, La, Lb, WN)
+                try:
+                    it = Interp(facts, max_paths=20000, max_steps=80000000)
+                    it.prune = True
+                    it.cmp_split = True
+                    it.split_all = True
+                    st = State()
+                    na, nb_ = ["p%d" % j for j in range(La)], ["q%d" % j for j in range(Lb)]
+
+                    def cont(names):
+                        cell = new_cell()
+                        st.mem[cell] = Arr([mk_cube(x) for x in names])
+                        f = [None, None]
+                        f[C.nv] = wconst(64, WN)
+                        f[C.cv] = Ptr(cell, (), (0, len(names)), "vec")
+                        return Agg("adt", C.adt, 0, f)
+                    A, Bv = cont(na), cont(nb_)
+                    names = na + nb_
+                    atoms = ["%s.f%d[%d]" % (nm, k, i_) for nm in names for k in range(2) for i_ in range(WN)]
+                    it.space = Space(atoms, canon_pc(names))
+                    with it.space:
+                        outs = it.call_body(bd, [arg_for(bd["sig"]["inputs"][0], A, st), arg_for(bd["sig"]["inputs"][1], Bv, st)], st, {}, pc=canon_pc(names))
+                    owner = {}
+                    for idx_, o in enumerate(outs):
+                        m_ = it.space.pc_mask(o.pc)
+                        if m_ is None:
+                            raise Undecided("path condition with top")
+                        while m_:
+                            low = m_ & -m_
+                            owner.setdefault(low.bit_length() - 1, []).append(idx_)
+                            m_ ^= low
+                    v, d = PROVED, ""
+                    ncases = 0
+                    # canonical operand choices: per cube and variable one of (absent, positive, negative)
+                    for lits in _it.product((0, 1, 2), repeat=len(names) * WN):
+                        named = {}
+                        cubes_in = []
+                        for j, nm in enumerate(names):
+                            pos = neg = 0
+                            for i_ in range(WN):
+                                l_ = lits[j * WN + i_]
+                                pos |= (l_ == 1) << i_
+                                neg |= (l_ == 2) << i_
+                            cubes_in.append((pos, neg))
+                            for i_ in range(WN):
+                                named["%s.f0[%d]" % (nm, i_)] = (pos >> i_) & 1
+                                named["%s.f1[%d]" % (nm, i_)] = (neg >> i_) & 1
+                        asg = {B.ATOMS.get(k_): v_ for k_, v_ in named.items()}
+                        r_ = it.space.index(named)
+                        enabled = [outs[x_] for x_ in owner.get(r_, [])]
+                        desc = "a = %s, b = %s (cubes as (pos, neg) masks)" % (cubes_in[:La], cubes_in[La:])
+                        if len(enabled) != 1:
+                            v, d = UNDECIDED, "%d paths enabled for %s" % (len(enabled), desc)
+                            break
+                        o = enabled[0]
+                        if o.kind != "return":
+                            v, d = REFUTED, "panics (%s) for %s" % (o.info.get("msg"), desc)
+                            break
+                        res = []
+                        for c in C.cubes(it, o.state, o.value):
+                            ev = eval_value(c if not isinstance(c, Ptr) else it.read_ptr(o.state, c), asg)
+                            if ev is None:
+                                raise Undecided("result cube with top")
+                            res.append(tuple(ev[2]))
+                        ncases += 1
+                        fa = [any(cube_val(c, m) for c in cubes_in[:La]) for m in range(1 << WN)]
+                        fb = [any(cube_val(c, m) for c in cubes_in[La:]) for m in range(1 << WN)]
+                        want = [(x or y) if opname == "or" else (x and y) for x, y in zip(fa, fb)]
+                        got = [any(cube_val(c, m) for c in res) for m in range(1 << WN)]
+                        if got != want:
+                            m = [k_ for k_ in range(1 << WN) if got[k_] != want[k_]][0]
+                            v, d = REFUTED, "%s: result %s is %d on assignment %d, a %s b is %d" % (desc, res, got[m], m, "|" if opname == "or" else "&", want[m])
+                            break
+                        bad = None
+                        for x_, cx in enumerate(res):
+                            if cx[0] & cx[1]:
+                                bad = "contains the contradictory cube %s" % (cx,)
+                            for y_, cy in enumerate(res):
+                                if x_ < y_ and cx == cy:
+                                    bad = "contains the cube %s twice" % (cx,)
+                                elif x_ != y_ and cx != cy and (cx[0] | cy[0]) == cx[0] and (cx[1] | cy[1]) == cx[1]:
+                                    bad = "keeps the cube %s although it implies %s" % (cx, cy)
+                        if bad:
+                            v, d = REFUTED, "%s: result %s %s" % (desc, res, bad)
+                            break
+                    if v == PROVED and ncases != 3 ** (len(names) * WN):
+                        v, d = UNDECIDED, "only %d cases" % ncases
+                except Undecided as ex:
+                    v, d = UNDECIDED, ex.cause
+                chk.add("C14.R", key, v, d, where=where_of(bd), sample=dict(obligation=key, cases=ncases if v == PROVED else None, verdict=v))
 
 
 def complement_rule(chk, facts, C, cm):
